@@ -484,10 +484,14 @@ pub fn print(records: &[ZRec], tape: &[u16], ctx: &mut Ctx) -> Printed {
             let k = r.owner.labels.len();
             let skip = t.pick(k + 1);
             let new_origin = r.owner.superdomain(skip).unwrap_or_else(MName::root);
-            let text = {
+            let mut text = {
                 let cur = ctx.origin.clone();
                 name_text(&new_origin, cur.as_ref(), &mut t)
             };
+            while text.ends_with("\\\n") {
+                text.truncate(text.len() - 2);
+                text.push_str("\\010");
+            }
             // a relative origin is only unambiguous if it is not '@' of nothing: name_text handles it
             out.push_str(&mix_case("$ORIGIN", &mut t));
             out.push_str(&separator(&mut t));
@@ -556,6 +560,14 @@ pub fn print(records: &[ZRec], tape: &[u16], ctx: &mut Ctx) -> Printed {
         }
         fields.push(type_text(r.data.rtype(), &mut t));
         fields.extend(rdata_fields(r.class, &r.data, origin.as_ref(), &mut t));
+        // a field never *ends* with a quoted newline: whatever follows (the separator, the end of the line)
+        // would have to be told apart from it; the last octet is written as \010 instead
+        for f in fields.iter_mut() {
+            while f.ends_with("\\\n") {
+                f.truncate(f.len() - 2);
+                f.push_str("\\010");
+            }
+        }
         // layout: optional parentheses with line breaks
         let use_parens = t.flag("parentheses", 3);
         let n = fields.len();
